@@ -368,4 +368,13 @@ theorem aclHandler_setuser_no_panic (a : AclState) (cid : Nat) (cmd : List Bytes
     | [], hl => simp at hl
     | [_], hl => simp at hl
     | [_, _], hl => simp at hl
+/-- a run of authentication attempts (connection, argument vector, digest of the supplied password), one after the
+    other on the same ACL state; the answers in order -/
+def authRun : AclState → List (Nat × List Bytes × Bytes) → AclState × List AclOut
+  | a, [] => (a, [])
+  | a, (cid, cmd, sha) :: rest =>
+    let r := authenticate a cid cmd sha
+    let t := authRun r.1 rest
+    (t.1, r.2 :: t.2)
+
 end Sugar.Acl
